@@ -108,6 +108,13 @@ def run(ctx, chk):
     sub9 = Sub(chk, "C18/transport", lambda r: r in ("C09-a/reset-on-failure", "C09-b/keep-on-success", "C09-b/reconnect-only-when-dead"))
     rules_c09.retry(sub9, crate)
     chk.floor("retry-wrapper obligations (shared with C09)", sub9.count, 3)
+    # ... and a card that is reported after a row of intermediate statuses is still this exchange's answer: the wait budget
+    # of the wrapper is per packet (`read_card_timeout + 2` s was chosen for that meaning), not one deadline for the exchange
+    import rules_c10
+    sub10 = Sub(chk, "C18/transport", lambda r: r in ("C10-a/per-await-budget", "C10-a/await-bounded"),
+                instance_filter=lambda i: "into_stream_with_retry" in str(i))
+    rules_c10.run(ctx, sub10)
+    chk.floor("per-packet wait obligations (shared with C10-a)", sub10.count, 2)
     # ... and the status reaches the client through read_packet: a reply that is framed wrongly (extended length header
     # dropped, body cut short) is not "the data the terminal reports" - the C04-b/d clauses
     import rules_c04
